@@ -53,8 +53,8 @@ def run(rec):
     order1 = params.BLS_H1 * R
     T_G1 = [CG.torsion_point(params.BLS_E1, order1, q, rng) for q in (3, 11)] + [params.BLS_E1.mul(params.BLS_E1.rand_point(rng), R)]
     inf_sig = Z.enc_g2(None)
-    if rec.shard in (0, 1, 2):
-        large_sets(rec, suites, rec.shard, quick)
+    if rec.shard in (0, 1, 2) or (rec.shard in (3, 4) and not quick):
+        large_sets(rec, suites, rec.shard, quick)                     # thorough: the other two suites on their own shards
     for c_ in ("av:large-set", "fav:large-set", "agg:large-set"):
         rec.case(c_, None, nontrivial=False)
     rounds = 1 if quick else 6
@@ -302,11 +302,11 @@ def large_sets(rec, suites, part, quick):
     ints and one byte; 300): honest aggregate must verify, one duplicate message (basic) or one foreign signature must not."""
     rng = rec.rng
     names = list(suites)
-    sizes = [257] if quick else [257, 300, 513]
+    sizes = [257] if quick else ([257, 300, 513] if part in (0, 1, 2) else [257])
     base_sks = [rng.randrange(1, R) for _ in range(5)]
     for n in sizes:
-        if part == 0:
-            for suite in (["basic"] if quick else names):
+        if part in (0, 3, 4):
+            for suite in ({0: ["basic"], 3: ["aug"], 4: ["pop"]}[part]):
                 S = suites[suite]
                 sks = [base_sks[j % 5] for j in range(n)]
                 pks = [bmon.register_key(sk) for sk in sks]
